@@ -35,7 +35,10 @@ def prog(o_bursts, e_bursts, order, exit_status, tail_sleep_ms, stdin_echo, clos
         p.append("close(STDOUT); select(undef,undef,undef,0.02); for(1..50){ printf STDERR \"E%sX;\", 'Z'; $j++; }")
     if tail_sleep_ms:
         p.append("select(undef,undef,undef,%f);" % (tail_sleep_ms / 1000.0))
-    p.append("exit %d;" % exit_status)
+    if exit_status >= 1000:                                  # the command dies of a signal
+        p.append("kill %d, $$; select(undef,undef,undef,5);" % (exit_status - 1000))
+    else:
+        p.append("exit %d;" % exit_status)
     return "\n".join(p)
 
 
@@ -67,7 +70,7 @@ def make_cases(rng, tier):
             ob, eb = [(20000, 0)], [(7300, 0)] if k % 2 else []
         stdin_lines = [b"x" * rng.randrange(0, 50) for _ in range(rng.randrange(0, 4))] if rng.randrange(3) == 0 else []
         cfs = rng.randrange(6) == 0
-        c = {"i": k, "o": ob, "e": eb, "order": rng.choice(["out-first", "interleave", "err-first"]), "exit": rng.choice([0, 0, 1, 3, 255]),
+        c = {"i": k, "o": ob, "e": eb, "order": rng.choice(["out-first", "interleave", "err-first"]), "exit": rng.choice([0, 0, 1, 3, 255, 1009, 1015, 1006, 1011]),
              "tail": rng.choice([0, 0, 0, 30]), "stdin": stdin_lines, "cfs": cfs,
              "stdin_mode": rng.choice(["close", "close", "open"]) if not stdin_lines else "close",
              "read": rng.choice([1 << 16, 4096, 512, 100]), "pause_us": rng.choice([0, 0, 200, 2000]) if k >= 6 else 2000}
@@ -112,12 +115,12 @@ def check(run):
         g = r.get("go", "stuck")
         ge = 0 if g == "nil" else 1 if g.startswith("exit:") else 3 if g == "stuck" else 2
         return "mk %s %s %s %s %d %d" % (vlib.coq_str(wo), vlib.coq_str(we), vlib.coq_str(bytes.fromhex(r.get("out", ""))),
-                                        str(bool(r.get("eof"))).lower(), c["exit"], ge)
+                                        str(bool(r.get("eof"))).lower(), c["exit"] if c["exit"] < 1000 else 128 + c["exit"] - 1000, ge)
     shown = [dict({k: v for k, v in c.items() if k != "stdin"}, stdin=[l.decode() for l in c["stdin"]]) for c in cases]
     vlib.judge_stream(run, "children", IMPORTS, "case", shown, res, lambda c, r: term(cases[c["i"]], r), CLAUSES, (),
                       "real child processes under CmdShell: 0-2 bursts per descriptor of 0 / 1 / 10 / 1000 / 7300 (one pipe buffer) / 9000 / 20000 (three "
                       "buffers) sequence-numbered lines, stdout/stderr first or interleaved, optional pauses, stdout closed before late stderr output, exit "
-                      "status 0/1/3/255 immediately or 30 ms after the last write, input echoed or left open and idle while the command exits; consumer "
+                      "status 0/1/3/255 or death by SIGKILL/SIGTERM/SIGABRT/SIGSEGV, immediately or 30 ms after the last write, input echoed or left open and idle while the command exits; consumer "
                       "reading 100 B - 64 KiB at a time with pauses 0 - 2 ms; the first six cases reproduce the repaired truncation (big burst, immediate "
                       "exit, slow reader); timing is real: a loss seen is real, no loss seen proves nothing more than the run",
                       key_fn=lambda c: json.dumps(c, sort_keys=True), shard=6)
